@@ -4,9 +4,12 @@
    vector, never a signed overflow site.  The benign verdicts are (i) Blowup: the file declares more
    data than it holds (known finding: work proportional to the declared size), (ii) CastRange: an
    out-of-range float conversion in the header updater (C19's subject), (iii) Fuel.
-   NOT yet proved: that Fuel is never returned (the record walker advances strictly) and the step bound;
-   the check measures wall time and outcome on every damaged file (partial). *)
-From EZ Require Import Base Bytes Types Api Dec Float32 Run Proofs_Robust.
+   PROVED as well: Fuel is never returned (C16_fuel_never_exhausted) — the zero-skipping loop and the record walker
+   consume at least one byte of a good stream per iteration and nothing inside them seeks, so the fuel (file length + 1)
+   cannot run out: the model's loader terminates on its own for every byte sequence.  NOT proved: a step bound in terms of
+   the FILE size (the known finding: work follows the declared sizes); the check measures wall time and outcome on every
+   damaged file (partial). *)
+From EZ Require Import Base Bytes Types Api Dec Float32 Run Proofs_Robust Proofs_Fuel.
 Local Open Scope N_scope.
 
 Theorem C16_stream_never_short : forall st n, length (fst (read st n)) = n.
@@ -48,6 +51,27 @@ Print Assumptions f_tosize_impl_benign.
 Theorem C16_partial_instance : forall file t, load_x file = UB t -> benign t.
 Proof. exact (load_no_memory_error f_key_impl f_tosize_impl f_div_impl f_key_impl_benign f_tosize_impl_benign). Qed.
 Print Assumptions C16_partial_instance.
+
+(* the two fuelled loops never run out of fuel *)
+Theorem C16_fuel_never_exhausted : forall f_key f_tosize f_div,
+  (forall r, f_key r <> UB Fuel) -> (forall r, f_tosize r <> UB Fuel) ->
+  forall file, load f_key f_tosize f_div file <> UB Fuel.
+Proof. exact load_never_out_of_fuel. Qed.
+Print Assumptions C16_fuel_never_exhausted.
+
+Theorem C16_walker_terminates : forall fuel nxt gs st, (remaining st < fuel)%nat -> walk fuel nxt gs st <> UB Fuel.
+Proof. exact walk_fuel. Qed.
+Print Assumptions C16_walker_terminates.
+
+Lemma f_key_impl_nofuel : forall r, f_key_impl r <> UB Fuel.
+Proof. intros r. unfold f_key_impl. repeat match goal with |- context [if ?b then _ else _] => destruct b end; discriminate. Qed.
+Lemma f_tosize_impl_nofuel : forall r, f_tosize_impl r <> UB Fuel.
+Proof. intros r. unfold f_tosize_impl. repeat match goal with |- context [if ?b then _ else _] => destruct b end; discriminate. Qed.
+Print Assumptions f_key_impl_nofuel.
+Print Assumptions f_tosize_impl_nofuel.
+Theorem C16_instance_never_out_of_fuel : forall file, load_x file <> UB Fuel.
+Proof. exact (load_never_out_of_fuel f_key_impl f_tosize_impl f_div_impl f_key_impl_nofuel f_tosize_impl_nofuel). Qed.
+Print Assumptions C16_instance_never_out_of_fuel.
 
 (* non-vacuity, and the three kinds of outcome on concrete damaged inputs *)
 Example C16_nonvacuous :
